@@ -3,7 +3,7 @@
    Misc/Prov.v): clearsign_decode, check_sig, sha256, yaml_meta_ok, yaml_sums. *)
 From Coq Require Import List String Ascii Bool.
 From Helm Require Import Common.Assoc Misc.Prov Misc.ProvProofs Misc.ProvTrust Misc.ProvTrustProofs Gen.C17Strategy Misc.ProvSource
-                        Misc.ProvFiles Misc.ProvFilesProofs.
+                        Misc.ProvFiles Misc.ProvFilesProofs Misc.ProvYaml Misc.ProvYamlProofs.
 Import ListNotations.
 Local Open Scope string_scope.
 
@@ -432,3 +432,79 @@ Example C17_files_example :
                (Some [7]) (FFile "d1") FMissing "a-1.tgz" = FErr (FECore ENoProv).
 Proof. exact files_example. Qed.
 Print Assumptions C17_files_example.
+
+(* ------------------------------------------------------------------ the sums as text *)
+(* Misc/ProvYaml.v models the YAML that messageBlock prints for the sums on the text itself:
+   print_sums / parse_sums ("files:" and lines of two blanks, name, colon, blank, value; names of
+   [A-Za-z0-9._+-] with extension .tgz, values sha256:<hex>).  Printing and parsing round-trip. *)
+Theorem C17_sums_roundtrip :
+  forall l, l <> [] ->
+    forallb (fun kv => name_ok (fst kv) && value_ok (snd kv)) l = true -> keys_distinct l = true ->
+    parse_sums (print_sums_list l) = SIn l.
+Proof. exact sums_roundtrip_list. Qed.
+Print Assumptions C17_sums_roundtrip.
+
+(* on a text of the modelled shape the entry of a name is exactly the text's line
+   "  <name>: <value>" *)
+Theorem C17_digest_line :
+  forall p fs name v, parse_sums p = SIn fs -> name_ok name = true -> value_ok v = true ->
+    (aget name fs = Some v <-> In ("  " ++ name ++ ": " ++ v) (lines p)).
+Proof. exact digest_line. Qed.
+Print Assumptions C17_digest_line.
+
+(* the digest line for the archive's base name in the signed text is what Verify compares:
+   with a YAML decoder that reads texts of the modelled shape as parse_sums does (checked against
+   sigs.k8s.io/yaml on part 1 of every decoded block of a run), a provenance file whose part 1
+   has that shape is accepted iff a keyring key signed it, part 0 parses as metadata and part 1
+   contains the line "  <base name>: sha256:<SHA-256 of the archive>" *)
+Theorem C17_verify_digest_line :
+  forall (keyring sigbody signer : Type)
+         (clearsign_decode : string -> option (string * sigbody))
+         (check_sig : keyring -> string -> sigbody -> option signer)
+         (sha256 : string -> string) (yaml_meta_ok : string -> bool)
+         (yaml_sums : string -> option (list (string * string)))
+         (kr : keyring) (prov name archive msg : string) (sg : sigbody) (p0 p1 : string) (rest : list string)
+         (fs : list (string * string)) (by_ : signer) (h : string),
+    (forall p files, parse_sums p = SIn files -> yaml_sums p = Some files) ->
+    clearsign_decode prov = Some (msg, sg) -> split_sep DOTS msg = p0 :: p1 :: rest ->
+    parse_sums p1 = SIn fs -> name_ok name = true -> value_ok ("sha256:" ++ sha256 archive) = true ->
+    (verify keyring sigbody signer clearsign_decode check_sig sha256 yaml_meta_ok yaml_sums kr prov name archive = VOk by_ h <->
+     check_sig kr (canon msg) sg = Some by_ /\ yaml_meta_ok p0 = true /\
+     In ("  " ++ name ++ ": " ++ "sha256:" ++ sha256 archive) (lines p1) /\ h = "sha256:" ++ sha256 archive).
+Proof. exact verify_digest_line. Qed.
+Print Assumptions C17_verify_digest_line.
+
+(* C17_sign_then_verify with the sums inside the model.  The YAML library is assumed to print a
+   name / digest of the modelled shape as print_sums does (compared on every signed archive of a
+   run) and to read texts of that shape as parse_sums does; that the printed sums are clean,
+   free of the separator and parse back to the one entry is then proved, not assumed.  The
+   metadata part and the clearsign / OpenPGP hypotheses are those of C17_sign_then_verify. *)
+Theorem C17_sign_then_verify_sums_modelled :
+  forall (keyring sigbody signer key : Type)
+         (clearsign_decode : string -> option (string * sigbody))
+         (check_sig : keyring -> string -> sigbody -> option signer)
+         (sha256 : string -> string) (yaml_meta_ok : string -> bool)
+         (yaml_sums : string -> option (list (string * string)))
+         (sign : key -> string -> sigbody) (clearsign_encode : string -> sigbody -> string)
+         (sums_yaml : string -> string -> string) (public_of : keyring -> key -> option signer),
+    (forall msg sg, clean msg = true -> clearsign_decode (clearsign_encode msg sg) = Some (msg, sg)) ->
+    (forall kr k by_ msg, public_of kr k = Some by_ -> clean msg = true -> check_sig kr (canon msg) (sign k msg) = Some by_) ->
+    (forall p files, parse_sums p = SIn files -> yaml_sums p = Some files) ->
+    (forall n v, name_ok n = true -> value_ok v = true -> sums_yaml n v = print_sums n v) ->
+    forall (kr : keyring) (k : key) (by_ : signer) (meta name archive : string),
+      public_of kr k = Some by_ ->
+      name_ok name = true -> value_ok ("sha256:" ++ sha256 archive) = true ->
+      clean meta = true -> nosep_before meta = true -> yaml_meta_ok meta = true ->
+      verify keyring sigbody signer clearsign_decode check_sig sha256 yaml_meta_ok yaml_sums kr
+             (clear_sign sigbody key sha256 sign clearsign_encode sums_yaml k meta name archive) name archive
+      = VOk by_ ("sha256:" ++ sha256 archive).
+Proof. exact sign_then_verify_sums_modelled. Qed.
+Print Assumptions C17_sign_then_verify_sums_modelled.
+
+Example C17_sums_example :
+  name_ok "web-2.5.2-rc.1+b4.tgz" = true /\ value_ok "sha256:19bf3172" = true /\
+  parse_sums (print_sums "web-2.5.2-rc.1+b4.tgz" "sha256:19bf3172") = SIn [("web-2.5.2-rc.1+b4.tgz", "sha256:19bf3172")] /\
+  parse_sums ("files:" ++ LFs ++ "  a.tgz: ""sha256:""" ++ LFs) = SOutside /\
+  parse_sums ("files:" ++ LFs ++ "  a.tgz: sha256:1f" ++ LFs ++ "  a.tgz: sha256:2e" ++ LFs) = SOutside.
+Proof. exact sums_example. Qed.
+Print Assumptions C17_sums_example.
